@@ -20,7 +20,7 @@ from core import Ctx, Infra, ModelUnavailable
 TRUSTED_BASE = [
     "T1 Lean 4.33 kernel + Mathlib v4.33; axioms propext, Classical.choice, Quot.sound only (audited per theorem each run)",
     "T2 hand-written Lean model is a transcription of the numpy code; numpy semantics (broadcasting, slices, where/minimum/maximum/abs/sign, linspace, linalg.solve) are modelled, not verified",
-    "T3 harness/gen_tables.py (ast translator of coefficient tables and literals), validated each run against run-time attributes",
+    "T3 harness/gen_tables.py (ast translator of coefficient tables, literals and limiter bodies, validated each run against run-time attributes) and harness/gen_kernels.py (ast translator of 44 pointwise kernels: fluxes, boundary states, conversions, named variables, time steps, nozzle sources; numpy where/minimum/maximum/abs/sqrt/log/** mapped to if/min/max/|.|/sqrt/log/pow; 1D branch of `x.ndim==1` conditionals); each translated body is proved equal to the hand-written model kernel (bridge theorems GenK.*_eq, GenLim.*_eq)",
     "T4 correspondence harness: sampling; agreement is observed on generated inputs with tolerance 2^-30 * scale, not proved",
     "T5 theorems are over exact ordered fields / the reals; binary64 round-off, overflow and NaN are seen only by the correspondence and the oracle sweeps",
     "T6 published Bogey-Bailly stability coefficients are written from the 2004 paper (C05 only)",
